@@ -6,15 +6,19 @@ internal/plugin/transport.go `serviceGenerator.Generate`).
 Everything that is to be written is accumulated in one map (relative path →
 contents) *before* the first write: all modules are generated, then all plugins are
 asked, their answers are checked for ".." and merged (conflict = the same key
-twice, keys compared in the form in which they are written: `normKey`), and only then does the write loop run over `filepath.Join(outDir, rel)`.
+twice, keys compared in the form in which they are written: `normKey`), the complete map is
+checked for paths that cannot all be written below one directory (`checkPaths`: a key that
+is the output directory itself, a key that another key needs as a directory), and only then
+does the write loop run over `filepath.Join(outDir, rel)`.
 
 Maps are association lists with unique keys; the iteration order of the Go maps
 only influences which of several errors is reported first, never ok-vs-error.
 `Content` is opaque (bytes); a `none` module result / plugin result is a failure.
 
-The write loop itself is modelled over a small file-system state (`FS`) so that
-the one way a *successful plan* can still fail half-way — a path that is a
-directory, or that needs a file as a directory — is visible (finding D33).
+The write loop itself is modelled over a small file-system state (`FS`): a path that
+is a directory, or that needs a file as a directory, makes it fail half-way. Since the
+repair of finding D33 (`checkPaths`) an accepted plan cannot do that to itself; what is
+left is what the output directory already holds (an OS-level failure, outside C17).
 
 Core-only.
 -/
@@ -56,6 +60,8 @@ inductive PlanErr where
   | dotdot          -- a plugin returned a path containing ".."
   | pluginConflict  -- two plugins returned the same path
   | mergeConflict   -- a plugin returned a path the core generator also produced
+  | outDirItself    -- a path that denotes the output directory itself ("" after normalisation)
+  | fileVsDir       -- a path that another path needs as a directory
   deriving DecidableEq, Repr
 
 /-- a compiled module as `Generate` sees it: its Thrift file and whether generating its
@@ -112,6 +118,20 @@ def runPlugins (plugs : List (Option Files)) (ord : List Nat) : Except PlanErr F
     | none => .error .pluginConflict
     | some m => .ok m
 
+/-- `d` is a proper directory prefix of `p` (`d ++ "/"` is a prefix of `p`). -/
+def isDirOf (d p : Str) : Bool := hasPrefix (d ++ ['/']) p
+
+/-- `checkFilePaths` (gen/generate.go), on the complete map of normalised keys, before the
+first write: the empty key is the output directory itself; a key that is a proper directory
+prefix of another key would have to be a file and a directory. (The code walks
+`filepath.Dir(path)`, `Dir(Dir(path))`, … up to "." and looks each one up in the map; on
+normalised keys — relative, cleaned — those are exactly the `d` with `d ++ "/"` a prefix of
+`path`. Keys are visited in sorted order, so an empty key is reported first.) -/
+def checkPaths (fs : Files) : Option PlanErr :=
+  if hasKey fs [] then some .outDirItself
+  else if fs.any (fun x => fs.any fun y => isDirOf y.1 x.1) then some .fileVsDir
+  else none
+
 /-- the relative-path map `Generate` holds when the write loop starts. -/
 def planFiles (root : Str) (mods : List ModIn) (plugs : List (Option Files)) (ord : List Nat) :
     Except PlanErr Files :=
@@ -123,7 +143,10 @@ def planFiles (root : Str) (mods : List ModIn) (plugs : List (Option Files)) (or
     | .ok pf =>
       match mergeFiles core pf with
       | none => .error .mergeConflict
-      | some all => .ok all
+      | some all =>
+        match checkPaths all with
+        | some e => .error e
+        | none => .ok all
 
 /-- what the write loop will do: `(filepath.Join(outDir, rel), contents)` for every entry. -/
 def generatePlan (root out : Str) (mods : List ModIn) (plugs : List (Option Files)) (ord : List Nat) :
